@@ -1,3 +1,54 @@
-From Coq Require Import List String.
-Example C05_placeholder : True. Proof. exact I. Qed.
-Print Assumptions C05_placeholder.
+(** C05 — Sid -> path -> Sid is the identity in every path configuration.  Property theorems only.
+    The hard direction needs that the path templates are unambiguous (the first template matching a formatted path is
+    its own, with its own field values).  That is an explicit hypothesis here ([path_to_dict] gives back type and fields):
+    the theorems are _partial, and the hypothesis is checked on the implementation for every generated Sid on every run
+    (round trip in every path configuration, both load orders), not proved for the configured templates. *)
+From Coq Require Import List String Ascii Bool Arith.
+From Spil Require Import Base.Str Base.Dict Base.Outcome Base.PyPath Resolva.Resolver Conf.Conf Conf.Routing Conf.WF Sid.Sid
+  Search.Unfold Search.Finders FS.Fs Data.Data Data.Crash Path.PathProofs Data.DataProofs Data.CrashProofs.
+From SpilGen Require Hamlet.
+Import ListNotations.
+Local Open Scope string_scope.
+
+Theorem C05_roundtrip_partial : forall c Ld x cfg p, load c = Some Ld -> wf_loadedb Ld = true ->
+  s_fields x <> [] -> sid_path Ld x cfg = Ok (Some p) ->
+  path_to_dict Ld p cfg = Ok (Some (s_type x, s_fields x)) ->
+  rdict_to_sid Ld (s_fields x) (s_type x) = Ok (s_string x) -> s_string x <> "" ->
+  sid_of_path Ld p cfg = Ok x.
+Proof. exact roundtrip_partial. Qed.
+Print Assumptions C05_roundtrip_partial.
+
+(* two Sids never come out of the same path *)
+Theorem C05_injective : forall c Ld x y cfg p, load c = Some Ld -> wf_loadedb Ld = true ->
+  sid_of_path Ld p cfg = Ok x -> sid_of_path Ld p cfg = Ok y -> x = y.
+Proof. exact path_injective_partial. Qed.
+Print Assumptions C05_injective.
+
+(* an untyped Sid, or a Sid whose type has no path template, has path None rather than an error *)
+Theorem C05_no_path_untyped : forall c Ld x cfg, load c = Some Ld -> wf_loadedb Ld = true ->
+  s_fields x = [] -> sid_path Ld x cfg = Ok None.
+Proof. exact no_path_is_none_untyped. Qed.
+Print Assumptions C05_no_path_untyped.
+
+Theorem C05_no_path_no_template : forall c Ld x cfg pc, load c = Some Ld -> wf_loadedb Ld = true ->
+  get_path_config Ld cfg = Ok pc -> s_fields x <> [] -> s_type x <> "" ->
+  find_tpl (lp_resolver pc) (s_type x) = None -> sid_path Ld x cfg = Ok None.
+Proof. exact no_path_is_none_no_template. Qed.
+Print Assumptions C05_no_path_no_template.
+
+(* path normalisation (pathlib) is idempotent: path(c) is a function returning a normal form *)
+Theorem C05_norm_idempotent : forall p, norm_path (norm_path p) = norm_path p.
+Proof. exact norm_path_idem. Qed.
+Print Assumptions C05_norm_idempotent.
+
+(* the recorded finding D26: values "" and "." vanish in path normalisation, two Sids share one path (outside C05's value sets) *)
+Example C05_dot_value_shares_path :
+  match sid_factory Hamlet.the_loaded (FromString "hamlet/a/char/."), sid_factory Hamlet.the_loaded (FromString "hamlet/a/char") with
+  | Ok x, Ok y => match sid_path Hamlet.the_loaded x "", sid_path Hamlet.the_loaded y "" with
+                  | Ok (Some p), Ok (Some q) => String.eqb p q && negb (sid_eqb x y)
+                  | _, _ => false
+                  end
+  | _, _ => false
+  end = true.
+Proof. vm_compute. reflexivity. Qed.
+Print Assumptions C05_dot_value_shares_path.
